@@ -19,7 +19,7 @@ from copsim.seams import RngRecorder
 PROPERTY = 'C09'
 LEVEL = 'exploration'
 TIERS = {
-    'quick': {'runs': 1100, 'wall': 70, 'batch': 8},
+    'quick': {'runs': 1500, 'wall': 150, 'batch': 8},
     'thorough': {'runs': 60000, 'wall': 840, 'batch': 8},
 }
 RULE = ('Each run = one Clayton/Frank/Gumbel model (theta assigned from tau on a grid or at '
